@@ -5,6 +5,7 @@ Differential against a set-algebra reference: the relation of a path AST is comp
 """
 import itertools, json
 from rdflib import Graph, URIRef, BNode, Literal, Variable
+from rdflib.graph import ReadOnlyGraphAggregate
 from rdflib.paths import Path
 from rv.terms import enc, dec, lkey, show
 from rv.probe import run_budgeted
@@ -191,6 +192,34 @@ def run_case(case, st=None):
         st["api-subjects"] = st.get("api-subjects", 0) + 1
         if got2 != {x for x, y in exp}:
             return ("api-subjects", "subjects(%s, %s) disagrees with the relation" % (sparql(a), show(o)))
+    # ---- path objects are values: building larger paths from this one must not change what it denotes
+    if isinstance(path, Path):
+        X = URIRef("urn:e:other")
+        try:
+            _ = (path / X, X / path, path | X, X | path, ~path, path * "*", path * "+", path * "?")
+            _ = (path / X) / X
+        except Exception:
+            pass     # not every combination is constructible (e.g. negated sets); only the effect on `path` matters
+        again = {(lkey(x), lkey(y)) for x, _, y in g.triples((s, path, o))}
+        st["operand-unchanged"] = st.get("operand-unchanged", 0) + 1
+        if again != exp:
+            return ("operand-mutated", "after building other paths from %s with / | ~ * the path object denotes another relation: missing %s, extra %s" % (sparql(a), sorted(exp - again, key=str)[:3], sorted(again - exp, key=str)[:3]))
+    # ---- the same triples spread over the members of a read-only aggregate
+    if T:
+        k = 2 + (len(T) % 2)
+        parts = [Graph() for _ in range(k)]
+        for i, t in enumerate(sorted(T, key=str)): parts[(i * 7 + len(str(t))) % k].add(t)
+        agg = ReadOnlyGraphAggregate(parts)
+        status, res, steps = run_budgeted(lambda: list(agg.triples((s, path, o))), len(T) * 4 * k + 50)
+        if status == "raised":
+            return ("aggregate-raises", "ReadOnlyGraphAggregate.triples((%s, %s, %s)) raised %s: %s" % (show(s), sparql(a), show(o), type(res).__name__, res))
+        if status == "ok":
+            gota = [(lkey(x), lkey(y)) for x, _, y in res]
+            st["aggregate"] = st.get("aggregate", 0) + 1
+            if set(gota) != exp:
+                return ("aggregate-relation", "on a ReadOnlyGraphAggregate of %d graphs triples((%s, %s, %s)): missing %s, extra %s" % (k, show(s), sparql(a), show(o), sorted(exp - set(gota), key=str)[:3], sorted(set(gota) - exp, key=str)[:3]))
+            if a[0] == "mul" and len(gota) != len(set(gota)):
+                return ("closure-duplicates", "on a ReadOnlyGraphAggregate triples((%s, %s, %s)) yields a pair twice" % (show(s), sparql(a), show(o)))
     # ---- SPARQL
     if not (isinstance(s, (BNode, Literal)) or isinstance(o, BNode)) and isinstance(path, Path) or (a[0] == "link" and not isinstance(s, (BNode, Literal)) and not isinstance(o, BNode)):
         stx = "?s" if s is None else s.n3(); otx = "?o" if o is None else o.n3()
